@@ -15,7 +15,10 @@ Proto == {"xferUnattached", "xferBeyondCredit", "xferBeyondWindow", "dispHuge", 
           "frameUnmappedCh", "beginAgain", "dupAttachAccepted", "endUnmapped", "openAgain", "xferToSender", "detachUnattached", "flowBadRole"}
 VARIABLE z
 Init == z = [k |-> "start"]
-Next == z.k = "start" /\ \E st \in States, h \in Raw \cup Proto : z' = [k |-> "case", st |-> st, h |-> h]
+\* hostile open performatives (limits below what the protocol allows) take the place of the peer's open
+OpenVar == {"openMfs0", "openMfs3", "openMfs4", "openMfs6", "openMfs7", "openMfs8", "openMfs100", "openMfs511", "openChmax0", "openIdle1"}
+Next == z.k = "start" /\ \/ \E st \in States, h \in Raw \cup Proto : z' = [k |-> "case", st |-> st, h |-> h]
+                         \/ \E h \in OpenVar \cup Raw : z' = [k |-> "case", st |-> "header", h |-> h]
 Spec == Init /\ [][Next]_z
 
 PF(perf, ch, f) == [e |-> "PFrame", perf |-> perf, ch |-> ch, f |-> f]
@@ -35,7 +38,8 @@ Receiver == IF Side = "client"
             THEN << [e |-> "AAttachR", l |-> "L2", s |-> "s1", cfg |-> [snd |-> 1, rcv |-> 0, credit |-> 2, auto_accept |-> TRUE]], PF("attach", 3, [name |-> "L2", h |-> 6, role |-> "s", snd |-> 1, rcv |-> 0, idc |-> 0]) >>
             ELSE << [e |-> "AAcceptLink", l |-> "L2", s |-> "s1", cfg |-> [credit |-> 2]], PF("attach", 3, [name |-> "L2", h |-> 6, role |-> "s", snd |-> 1, rcv |-> 0, idc |-> 0]) >>
 MidXfer == << [e |-> "PFrame", perf |-> "transfer", ch |-> 3, f |-> [h |-> 6, did |-> 0, tagn |-> 1, tag |-> <<0>>, fmt |-> 0, settled |-> "t", more |-> TRUE], msg |-> [m |-> 50, len |-> 100, off |-> 0, n |-> 30, shape |-> "data"]] >>
-Prefix(st) == (IF Side = "client" THEN ClientOpen ELSE ListenerOpen)
+Prefix(st) == IF st = "header" THEN SubSeq(IF Side = "client" THEN ClientOpen ELSE ListenerOpen, 1, 2) ELSE
+              (IF Side = "client" THEN ClientOpen ELSE ListenerOpen)
               \o (IF st = "open" THEN <<>> ELSE Begin)
               \o (IF st \in {"sender", "receiver", "midxfer", "closing"} THEN Sender ELSE <<>>)
               \o (IF st \in {"receiver", "midxfer", "closing"} THEN Receiver ELSE <<>>)
@@ -62,6 +66,16 @@ Hostile(h) ==
     [] h = "nest1300" -> <<[e |-> "PRaw", tag |-> h, gen |-> [kind |-> "nest", depth |-> 1300, ch |-> 3]]>>
     [] h = "saslBody" -> <<[e |-> "PRaw", tag |-> h, b |-> <<0,0,0,12, 2,0,0,3, 0,83,68,69>>]>>
     [] h = "truncPerf" -> <<[e |-> "PRaw", tag |-> h, b |-> <<0,0,0,13, 2,0,0,3, 0,83,19,192,20>>]>>
+    [] h = "openMfs0" -> <<PF("open", 0, [mfs |-> 0, chmax |-> 10])>>
+    [] h = "openMfs3" -> <<PF("open", 0, [mfs |-> 3, chmax |-> 10])>>
+    [] h = "openMfs4" -> <<PF("open", 0, [mfs |-> 4, chmax |-> 10])>>
+    [] h = "openMfs6" -> <<PF("open", 0, [mfs |-> 6, chmax |-> 10])>>
+    [] h = "openMfs7" -> <<PF("open", 0, [mfs |-> 7, chmax |-> 10])>>
+    [] h = "openMfs8" -> <<PF("open", 0, [mfs |-> 8, chmax |-> 10])>>
+    [] h = "openMfs100" -> <<PF("open", 0, [mfs |-> 100, chmax |-> 10])>>
+    [] h = "openMfs511" -> <<PF("open", 0, [mfs |-> 511, chmax |-> 10])>>
+    [] h = "openChmax0" -> <<PF("open", 0, [mfs |-> 4096, chmax |-> 0])>>
+    [] h = "openIdle1" -> <<PF("open", 0, [mfs |-> 4096, chmax |-> 10, idle |-> 1])>>
     [] h = "xferUnattached" -> <<[e |-> "PFrame", perf |-> "transfer", ch |-> 3, f |-> XferF(77, 40), msg |-> Msg(60)]>>
     [] h = "xferBeyondCredit" -> <<[e |-> "PFrame", perf |-> "transfer", ch |-> 3, f |-> XferF(6, 40), msg |-> Msg(60)], [e |-> "PFrame", perf |-> "transfer", ch |-> 3, f |-> XferF(6, 41), msg |-> Msg(61)],
                                   [e |-> "PFrame", perf |-> "transfer", ch |-> 3, f |-> XferF(6, 42), msg |-> Msg(62)], [e |-> "ARecv", l |-> "L2"], [e |-> "ARecv", l |-> "L2"], [e |-> "ARecv", l |-> "L2"]>>
@@ -85,6 +99,7 @@ Hostile(h) ==
     [] h = "flowBadRole" -> <<PF("flow", 3, [nii |-> 1000, iw |-> 100, noi |-> 0, ow |-> 100, h |-> 6, dc |-> 0, lc |-> 5, drain |-> TRUE])>>
 \* the probe: ordinary use afterwards; every call must return
 Probe(st) == (IF st \in {"sender", "receiver", "midxfer"} THEN <<[e |-> "ASend", l |-> "L1", m |-> 1, len |-> 20, settled |-> TRUE]>> ELSE <<>>)
+             \o (IF st = "header" THEN <<[e |-> "ABegin", s |-> "s1", cfg |-> [noi |-> 1000, iw |-> 3, ow |-> 100]]>> ELSE <<>>)
              \o (IF st = "closing" THEN <<>> ELSE <<[e |-> "AClose", err |-> ""]>>) \o <<PF("close", 0, [err |-> ""]), [e |-> "PEof"]>>
 Emit == z.k = "start" \/ PrintT(<<"SCRIPT", ToJson([side |-> Side, id |-> <<Side, z.st, z.h>>, final_ms |-> 60000, ev |-> Prefix(z.st) \o Hostile(z.h) \o Probe(z.st)])>>)
 =============================================================================
